@@ -75,7 +75,9 @@ def step {α} [Num α] (p : Params α) (i : In α) : Out α :=
   let fine := r * theKLSCClayval
   let coarse := total - fine
   if i.qf > 0 && total > 0 then
-    let (rateFine, rateCoarse) := adjustedRates p i.qf fine coarse
+    let rates := adjustedRates p i.qf fine coarse
+    let rateFine := rates.1
+    let rateCoarse := rates.2
     let loadKgFine := rateFine * p.area * Units.squareMetresToHectares * Units.tonnesToKg
     let loadKgCoarse := rateCoarse * p.area * Units.squareMetresToHectares * Units.tonnesToKg
     let afterHSDRFine := loadKgFine * (p.usleHSDRFine * 0.01)
